@@ -86,7 +86,47 @@ def count_values(p, r, L, values, rng, label):
     got = p.many([seeds[c] for c in vals])
     for c, g in zip(vals, got):
         if g != c:
-            return "inconclusive", "middle word of value %d maps to %r" % (c, g)
+            # the expected place does not hold the value.  If the map word -> value is monotone (validated on random pairs) a binary search
+            # either finds a word for the value or proves that the map jumps over it: then the value is unreachable.
+            probes = sorted(rng.below(B) for _ in range(24))
+            pv = [v for v in p.many(probes) if isinstance(v, int) and v >= 0]
+            if len(pv) < 12 or any(a > b for a, b in zip(pv, pv[1:])):
+                return "inconclusive", "middle word of value %d maps to %r and the map is not monotone" % (c, g)
+            def num(v):
+                return v if isinstance(v, int) and v >= 0 else None
+            # the outermost accepted words (words at the very ends may be rejected by the sampler)
+            lo = next((x for x in range(0, 2048) if num(p.one(x)) is not None), None)
+            hi = next((x for x in range(B - 1, B - 2049, -1) if num(p.one(x)) is not None), None)
+            if lo is None or hi is None:
+                return "inconclusive", "middle word of value %d maps to %r" % (c, g)
+            flo, fhi = p.one(lo), p.one(hi)
+            if flo == c:
+                seeds[c] = lo
+                continue
+            if fhi == c:
+                seeds[c] = hi
+                continue
+            if not (flo < c < fhi):
+                return ("%s: value offset %d is never produced: the map from words to values is monotone (validated on %d random words) and runs from %d to %d" % (label, c, len(pv), flo, fhi)), {c: (lo, hi, 0)}
+            while hi - lo > 1:
+                m = (lo + hi) // 2
+                fm = num(p.one(m))
+                if fm is None:
+                    # a rejected word: look at its neighbours
+                    fm = num(p.one(m + 1)) if m + 1 < hi else None
+                    if fm is None:
+                        return "inconclusive", "rejected words inside the search for value %d" % c
+                if fm == c:
+                    lo = hi = m
+                    break
+                if fm < c:
+                    lo = m
+                else:
+                    hi = m
+            if lo == hi:
+                seeds[c] = lo
+                continue
+            return ("%s: value offset %d is never produced: the map from words to values is monotone (validated on %d random words), word %d gives %s and word %d gives %s" % (label, c, len(pv), lo, p.one(lo), hi, p.one(hi))), {c: (lo, hi, 0)}
     info = {}
     for c in vals:
         below = mid(c - 1) if c > 0 else -1
